@@ -2,7 +2,7 @@
 # usage: tools/iter.sh <TestName> [checks] [seed]  -- developer loop: run one test, print the minimised failure
 cd /verif; export GOFLAGS=-mod=mod GOPROXY=off
 D=$(mktemp -d /tmp/iter.XXXX)
-VERIF_FAIL_OUT=$D/fail.jsonl VERIF_STATS_OUT=$D/stats.jsonl VERIF_EXCLUDE="$EXCL" go test -tags verif ./props/ -run "^$1\$" -rapid.checks=${2:-300} -rapid.seed=${3:-1} -rapid.shrinktime=5s -rapid.nofailfile -timeout 600s > $D/out.txt 2>&1
+VERIF_FAIL_OUT=$D/fail.jsonl VERIF_STATS_OUT=$D/stats.jsonl VERIF_EXCLUDE="$EXCL" go test -tags verif ./props/ -run "^$1\$" -rapid.checks=${2:-300} -rapid.seed=${3:-1} -rapid.shrinktime=${SHRINK:-5s} -rapid.nofailfile -timeout 600s > $D/out.txt 2>&1
 tail -2 $D/out.txt
 python3 - $D <<'P'
 import json,os,sys
